@@ -42,17 +42,8 @@ Lemma step_f_session : forall fuel pfuel p s sets,
   | _ => (s3, mkRes RFuel [] None)
   end.
 Proof.
-  intros. unfold step_f. cbv zeta.
-  change (fun '(s0, rs, batch) '(v, x) =>
-            (set_computed_input s0 (mkNode KInput v) x,
-             rs ++ [match get_info s0 (mkNode KInput v) with
-                    | Some i => if i_value i =? x then SUnchanged else SUpdated
-                    | None => SFresh end],
-             match match get_info s0 (mkNode KInput v) with
-                   | Some i => if i_value i =? x then SUnchanged else SUpdated
-                   | None => SFresh end with
-             | SUpdated => batch ++ [mkNode KInput v] | _ => batch end)) with fsess_step.
-  destruct (fold_left fsess_step sets (set_ts (set_log s []) (s_ts (set_log s []) + 1)%N, [], [])) as [[s1 rs] batch].
+  intros. unfold step_f, fsess_step. cbv zeta.
+  match goal with |- context [fold_left ?F sets ?A] => destruct (fold_left F sets A) as [[s1 rs] batch] end.
   reflexivity.
 Qed.
 
@@ -157,5 +148,89 @@ Proof.
   intros k sets b rk0 Hk Hk1 Hk2. rewrite <- run_history_is_f in Hk2. eapply Hfuel; eauto.
 Qed.
 
+(** the hypothesis on fuel is needed, as for the fragments: a session whose dirty propagation
+    ran out of the model's fixed fuel keeps the inputs without the dirt *)
+Definition model_sound_statement_unguarded : Prop :=
+  forall p ops i n r z, wf_model p -> Forall op_in_scope ops ->
+    nth_error ops i = Some (OQuery n) ->
+    nth_error (run_history p init_state ops) i = Some r ->
+    r_out r = RValue z ->
+    MdlSpec p (inputs_after (firstn i ops)) n z.
+
+Definition mcex_I0 := mkNode KInput 0.
+Definition mcex_F0 := mkNode KFirewall 0.
+Definition mcex_prog : program := [(mcex_F0, ERead mcex_I0)].
+Fixpoint mcex_alt (k : nat) : list (N * Z) :=
+  match k with O => [] | S k' => (0%N, 5) :: (0%N, 2) :: mcex_alt k' end.
+Definition mcex_hist : list op :=
+  [OSession [(0%N, 1)] false; OQuery mcex_F0; OSession (mcex_alt 2100) false; OQuery mcex_F0].
+
+Lemma mcex_prog_wf : wf_model mcex_prog.
+Proof.
+  split.
+  - intros n e [H|[]]. inversion H. subst. split; reflexivity.
+  - intros n e d [H|[]] Hd. inversion H. subst. destruct Hd as [<-|[]]. left. reflexivity.
+  - intros n e d [H|[]] K. inversion H. subst. discriminate.
+  - exists (fun _ => O). intros n e d [H|[]] Hd K. inversion H. subst. destruct Hd as [<-|[]]. discriminate.
+Qed.
+
+Theorem model_sound_unguarded_refuted : ~ model_sound_statement_unguarded.
+Proof.
+  intro H.
+  assert (Hrun : exists r, nth_error (run_history mcex_prog init_state mcex_hist) 3 = Some r /\ r_out r = RValue 1).
+  { eexists. split; [vm_compute; reflexivity|reflexivity]. }
+  destruct Hrun as [r [Hr Hz]].
+  assert (Hsc : Forall op_in_scope mcex_hist).
+  { repeat constructor; cbn; discriminate. }
+  specialize (H mcex_prog mcex_hist 3%nat mcex_F0 r 1 mcex_prog_wf Hsc eq_refl Hr Hz).
+  apply MdlSpec_MSpecI in H.
+  assert (H2 : MSpecI mcex_prog (inputs_after (firstn 3 mcex_hist)) mcex_F0 2).
+  { apply MdlSpec_MSpecI. exists 5%nat. vm_compute. reflexivity. }
+  pose proof (MSpecI_det _ _ _ _ _ H H2). discriminate.
+Qed.
+
+(** * example: a projection that switches between firewalls, projections over projections *)
+Definition mex_I (k : N) := mkNode KInput k.
+Definition mex_N (k : N) := mkNode KNormal k.
+Definition mex_F (k : N) := mkNode KFirewall k.
+Definition mex_P (k : N) := mkNode KProjection k.
+Definition mex_prog : program :=
+  [ (mex_F 0, EMod (ERead (mex_I 0)) 3);
+    (mex_F 1, EMod (ERead (mex_I 1)) 2);
+    (mex_P 0, EIf (ERead (mex_F 1)) (ERead (mex_F 0)) (EConst 7));
+    (mex_P 1, EAdd (ERead (mex_P 0)) (ERead (mex_F 1)));
+    (mex_N 0, EAdd (ERead (mex_P 1)) (ERead (mex_I 2)));
+    (mex_N 1, EAdd (ERead (mex_N 0)) (ERead (mex_P 0))) ].
+
+Ltac mwf_cases H := repeat (destruct H as [H|H]; [inversion H; subst; clear H|]); try destruct H.
+Ltac min_cases H := cbn in H; repeat (destruct H as [H|H]; [subst|]); try destruct H.
+
+Example mex_prog_wf : wf_model mex_prog.
+Proof.
+  split.
+  - intros n e H. mwf_cases H; split; reflexivity.
+  - intros n e d H Hd. mwf_cases H; min_cases Hd; (left; reflexivity) || (right; split; [reflexivity|discriminate]).
+  - intros n e d H K Hd. mwf_cases H; try discriminate K; min_cases Hd; reflexivity.
+  - exists (fun n => match nkind n with
+                     | KFirewall => 1%nat | KProjection => (2 + N.to_nat (nidx n))%nat
+                     | KNormal => (4 + N.to_nat (nidx n))%nat | _ => 0%nat end).
+    intros n e d H Hd K. mwf_cases H; min_cases Hd; try discriminate K; cbn; lia.
+Qed.
+
+Definition mex_hist : list op :=
+  [ OSession [(0%N, 1); (1%N, 1); (2%N, 10)] false; OQuery (mex_N 1); OQuery (mex_N 0);
+    OSession [(0%N, 5)] false; OQuery (mex_N 0); OQuery (mex_N 1);
+    OSession [(1%N, 2)] false; OQuery (mex_P 1); ORestart; OQuery (mex_N 1);
+    OSession [(1%N, 3); (0%N, 4)] false; OQuery (mex_N 1) ].
+
+Example mex_run :
+  map r_out (run_history mex_prog init_state mex_hist) =
+  [ RSession [SFresh; SFresh; SFresh]; RValue 13; RValue 12;
+    RSession [SUpdated]; RValue 13; RValue 15;
+    RSession [SUpdated]; RValue 7; RUnit; RValue 24;
+    RSession [SUpdated; SUpdated]; RValue 13 ].
+Proof. vm_compute. reflexivity. Qed.
+
 Print Assumptions model_sound_f.
 Print Assumptions model_sound.
+Print Assumptions model_sound_unguarded_refuted.
